@@ -126,13 +126,17 @@ def pending_effect_placement(ctx):
     order of the consumer's operands - whatever numbers the temporaries carry (h_tmp9 before h_tmp10: the counter is never
     reset, so the numbers depend on what the transformer compiled before)"""
     idx = get_index(ctx.env)
-    for order, exp in ((None, ["s9", "s10", "consumer"]), ("HYB_THEN_SEQ", ["s9", "s10", "consumer"]), ("SEQ_THEN_HYB", ["consumer", "s9", "s10"])):
+    # the consumer may be any effect, or a hybrid without a value (a void call is handed over as it is)
+    consumers = ["Effect"] + sorted(c for c in (set(idx.subclasses("Effect", strict=True)) | set(idx.subclasses("Hybrid"))) if c in idx.classes and c != "Effect")
+    for order, exp, ccls in [(o, e, c) for c in consumers for o, e in ((None, ["s9", "s10", "consumer"]), ("HYB_THEN_SEQ", ["s9", "s10", "consumer"]), ("SEQ_THEN_HYB", ["consumer", "s9", "s10"]))
+                             if c == "Effect" or o is None]:
         r = Runner(idx, keep_real=("chk_hybrid_dep",))
         box = {}
+        tag = "" if ccls == "Effect" else f", consumer is a {ccls}"
 
         def args():
             ops = [op_with_name(r, "o9", "h_tmp9"), op_with_name(r, "ox", "x"), "ENUM_STR", op_with_name(r, "o10", "h_tmp10"), op_with_name(r, "o9b", "h_tmp9")]
-            cons = r.pure("consumer", cls="Effect")
+            cons = r.pure("consumer", cls=ccls)
             r.stubs[("consumer", "get_op_list")] = ops
             return [cons] + ([hyb_order(order)] if order else [])
 
@@ -145,8 +149,8 @@ def pending_effect_placement(ctx):
         for o in outs:
             v = o.value
             got = seq_effects(v) if isinstance(v, AObj) and v.cls == "Sequence" else [lab(v)]
-            ctx.check(f"chk_hybrid_dep[order={order or 'default'}] placement", got == exp, str(exp), str(got), fn_where(idx, fi))
-            ctx.check(f"chk_hybrid_dep[order={order or 'default'}] leaves unreferenced pending effects pending", sorted(box["d"]) == ["h_tmp3"], "['h_tmp3']", str(sorted(box["d"])), fn_where(idx, fi))
+            ctx.check(f"chk_hybrid_dep[order={order or 'default'}{tag}] placement", got == exp, str(exp), str(got), fn_where(idx, fi), nontrivial=(ccls in ("Effect", "SubRoutineCall", "Assignment")))
+            ctx.check(f"chk_hybrid_dep[order={order or 'default'}{tag}] leaves unreferenced pending effects pending", sorted(box["d"]) == ["h_tmp3"], "['h_tmp3']", str(sorted(box["d"])), fn_where(idx, fi), nontrivial=(ccls in ("Effect", "SubRoutineCall", "Assignment")))
 
 
 @rule("R06.2", "C06", "chk_hybrid_dep: pending effects of referenced temporaries are sequenced in operand order before the consumer (after it only on request); unreferenced ones stay pending; every effect-producing callback wraps its result", min_instances=12)
